@@ -114,6 +114,8 @@ FArms(arms, U, j, acc) ==
 FS(s, U, dummy) ==
     CASE s.k = "fassign" -> IF ReadsField(s.e, U) THEN [ok |-> FALSE, U |-> U]
                             ELSE [ok |-> TRUE, U |-> IF s.o.k = "var" /\ s.o.n = "self" THEN U \ {s.f} ELSE U]
+      \* a compound assignment READS its target first
+      [] s.k = "faug"    -> [ok |-> ~ReadsField(s.e, U) /\ ~(s.o.k = "var" /\ s.o.n = "self" /\ s.f \in U), U |-> U]
       [] s.k \in {"print", "expr", "ret", "def", "assign", "aug"} -> [ok |-> ~ReadsField(s.e, U), U |-> U]
       [] s.k = "if"      -> IF ReadsField(s.c, U) THEN [ok |-> FALSE, U |-> U]
                             ELSE LET t == FB(s.t, U, 1) e == FB(s.e, U, 1) IN
